@@ -35,6 +35,14 @@ def ref_to_wire(ref):
     }
 
 
+def pe_ref_to_wire(ref):
+    return {"lfanew": ref["lfanew"],
+            "coff": {k: digits(v) for k, v in ref["coff"].items()},
+            "opt": {k: digits(v) for k, v in ref["opt"].items()},
+            "dirs": [{k: digits(v) for k, v in d.items()} for d in ref["dirs"]],
+            "secs": [dict([(k, digits(v)) for k, v in s.items() if k != "Name"] + [("Name", s["Name"])]) for s in ref["secs"]]}
+
+
 def load_corpus(fmt="elf"):
     out = []
     for name in json.load(open(os.path.join(CORPUS, "INDEX.json"))):
@@ -60,9 +68,14 @@ QUICK_ELF = ("x86/prefixes.elf", "x86/flow.elf", "x64/flow.elf64", "x64/test_ful
              "arm/sc", "arm/sc.o", "riscv/TA.elf.signed")
 
 
-def validate(ctx, fmt, module, cfg, compare, max_bytes=400000, shards=6, only=None):
-    """returns the list of (ref, data, tlc record) for the files of the corpus"""
+def validate(ctx, fmt, module, cfg, compare, max_bytes=400000, shards=6, only=None, noref=()):
+    """returns the list of (ref, data, tlc record) for the files of the corpus (+ the sample files listed in noref, for
+    which no reference dump exists: they get no T-ref verdict, only TLC's report of their bytes)"""
     items = []
+    for rel in noref:
+        path = os.path.join(SAMPLES, rel)
+        if os.path.exists(path):
+            items.append(({"file": rel, "origin": "samples", "noref": True}, open(path, "rb").read()))
     for ref, path in load_corpus(fmt):
         if only is not None and ref["origin"] != "extra" and ref["file"] not in only:
             continue
@@ -85,7 +98,11 @@ def validate(ctx, fmt, module, cfg, compare, max_bytes=400000, shards=6, only=No
     buckets = [[] for _ in range(min(shards, len(items)))]
     for n, i in enumerate(order):
         ref, data = items[i]
-        buckets[n % len(buckets)].append({"t": i, "bytes": list(data), "ref": ref_to_wire(ref) if fmt == "elf" else compare(ref)})
+        if ref.get("noref"):
+            buckets[n % len(buckets)].append({"t": i, "bytes": list(data), "hasref": False, "ref": {}})
+            continue
+        buckets[n % len(buckets)].append({"t": i, "bytes": list(data), "hasref": True,
+                                          "ref": ref_to_wire(ref) if fmt == "elf" else compare(ref)})
     jobs = [(module, cfg, b, "c14ref_%s_%d" % (fmt, k)) for k, b in enumerate(buckets)]
     with ThreadPoolExecutor(len(jobs)) as ex:
         results = list(ex.map(run_shard, jobs))
@@ -99,6 +116,12 @@ def validate(ctx, fmt, module, cfg, compare, max_bytes=400000, shards=6, only=No
         if i not in recs:
             raise tlc.MachineryError("no verdict for reference file %s" % ref["file"])
         r = recs[i]
+        if ref.get("noref"):
+            if "expect" not in r:
+                ctx.count("samples_not_recognised_by_spec_" + fmt, 1)
+                continue
+            out.append((ref, data, r))
+            continue
         if r["verdict"] != "ok":
             # the reference tool and the specification disagree about what the file encodes: the oracle cannot be
             # trusted for this format until that is resolved (never reported as a property verdict)
@@ -136,3 +159,34 @@ def run_elf(ctx, quick=False):
         ctx.case(key=("elf-sample", ref["file"]))
     ctx.trace(n)
     ctx.count("elf_samples_checked", n)
+
+
+def run_pe(ctx, quick=False):
+    """T-ref for the PE dumps + T: the PE samples through amoco (CoST.exe has no reference dump: llvm-readobj rejects it)"""
+    from . import c14pe
+    c14.quiet()
+    n = 0
+    for ref, data, r in validate(ctx, "pe", "PeRef", "PeRef.cfg", pe_ref_to_wire, shards=3, max_bytes=600000,
+                                 noref=("x86/CoST.exe",)):
+        out, drifts = [], []
+        try:
+            p = c14pe.open_pe(data)
+        except Exception as ex:
+            ctx.fail("C14:pe:open:raises:" + type(ex).__name__, "%s: PE() raised %r" % (ref["file"], ex), {"file": ref["file"]})
+            continue
+        try:
+            if c14pe.compare_report(p, r["expect"], out):
+                c14pe.compare_queries(p, r["expect"], r["queries"], out, drifts)
+        except Exception as ex:
+            out.append(("C14:pe:report:raises:" + type(ex).__name__, "reading the parsed object raised %r" % (ex,)))
+        seen = set()
+        for key, what in out:
+            if key not in seen:
+                seen.add(key)
+                ctx.fail(key, "sample %s: %s" % (ref["file"], what), {"source": "T:samples", "format": "pe", "file": ref["file"]})
+        for d in drifts:
+            ctx.drift(d)
+        n += 1
+        ctx.case(key=("pe-sample", ref["file"]))
+    ctx.trace(n)
+    ctx.count("pe_samples_checked", n)
